@@ -1189,3 +1189,122 @@ Proof.
     + repeat constructor; simpl; intuition discriminate.
     + repeat constructor; simpl; intuition discriminate.
 Qed.
+
+(* ================================================================ completeness *)
+Section Complete.
+Variable m : module.
+
+Lemma fetch_tagged : forall fuel M p c n t, fetch m fuel M p (NTy (Some (c, n)) t) = Some (OT c n).
+Proof. destruct fuel; reflexivity. Qed.
+
+Lemma fetch_term_uc : forall n p t,
+  fetch m n [] p (NTy None t) = None ->
+  (exists r1 e r2, terminal m n t = Some (TCons KChoice r1 e r2)) ->
+  untagged_choice m t.
+Proof.
+  induction n as [|f IH]; intros p t Hf [r1 [e [r2 Ht]]].
+  - destruct t as [pr|items|k a b c|el|r]; simpl in Ht; try discriminate.
+    + inversion Ht; subst. constructor.
+    + destruct (lookup m r); discriminate.
+  - destruct t as [pr|items|k a b c|el|r]; simpl in Ht; try discriminate.
+    + inversion Ht; subst. constructor.
+    + simpl in Hf. destruct (lookup m r) as [d|] eqn:L; [|discriminate].
+      simpl in Hf. destruct (d_tag d) as [g|] eqn:G.
+      * simpl in Hf. rewrite fetch_tagged in Hf. discriminate.
+      * apply UC_ref with d; [exact L | exact G|].
+        eapply IH; [exact Hf | eauto].
+Qed.
+
+Lemma must_explicit_uc : forall p t, must_explicit m p t = true -> untagged_choice m t.
+Proof.
+  intros p t H. unfold must_explicit in H.
+  destruct (out m [] {| n_path := p; n_opt := false; n_kind := NTy None t |}) eqn:O; [discriminate|].
+  destruct (terminal m (term_fuel m) t) as [tt|] eqn:T; [|discriminate].
+  destruct tt as [| |k r1 e r2| |]; try discriminate. destruct k; try discriminate.
+  unfold out in O. cbn [n_path n_kind] in O.
+  eapply fetch_term_uc; [exact O|]. unfold fetch_fuel. unfold term_fuel in T. eauto.
+Qed.
+
+Lemma implicit_ok_no_error : forall p tg t, implicit_ok m tg t -> implicit_error m p tg t = false.
+Proof.
+  intros p tg t H. unfold implicit_error. destruct tg as [g|]; [|reflexivity].
+  simpl in H. destruct (tg_mode g) eqn:Md; try reflexivity.
+  destruct (must_explicit m p t) eqn:Me; [|reflexivity].
+  exfalso. apply (H eq_refl). eapply must_explicit_uc. exact Me.
+Qed.
+
+Lemma member_implicit_ok : forall p l pos,
+  Forall (fun c => implicit_ok m (c_tag (fst c)) (snd c)) l -> member_implicit_errors m p pos l = false.
+Proof.
+  intros p. induction l as [|[c t] l IH]; intros pos H; [reflexivity|].
+  inversion H as [|? ? H1 H2]; subst. unfold member_implicit_errors. simpl.
+  rewrite (implicit_ok_no_error _ _ _ H1). simpl. apply IH. exact H2.
+Qed.
+
+Definition enum_plain (t : ty) : Prop :=
+  match t with TEnum items => all_valued items \/ none_valued items | _ => True end.
+
+(* reference chains are no longer than the number of definitions (true of every
+   module by the pigeonhole principle; kept as a hypothesis here) *)
+Definition chains_short : Prop :=
+  forall r, resolves m r -> terminal m (term_fuel m) (TRef r) <> None.
+
+Lemma check_node_complete : forall fuel p t,
+  chains_short -> type_ok m t -> type_wf m t -> enum_plain t -> quiet (check_node m fuel p t).
+Proof.
+  intros fuel p t Hch Hok Hwf Hen. destruct t as [pr|items|k r1 ext r2|e|r].
+  - left. reflexivity.
+  - simpl in *. destruct Hok as [H1 H2]. left.
+    replace (enum_val_clash items) with false by (symmetry; apply enum_val_clash_complete_partial; assumption).
+    replace (enum_name_clash items) with false by (symmetry; apply dup_in_NoDup; exact H1).
+    reflexivity.
+  - unfold check_node.
+    change (match k with KSeq => true | _ => false end) with (seq_flag k).
+    destruct Hok as [Hid Htags]. destruct Hwf as [Himp Hext].
+    destruct (scan_all m fuel (seq_flag k) (members (m_tagging m) p r1 ext r2)) as [|c] eqn:S; [right; reflexivity|].
+    left. destruct c; [exfalso; exact (cons_tags_complete m fuel p k r1 ext r2 Htags S)|].
+    replace (dup_in (map (fun c => c_name (fst c)) (r1 ++ adds_of ext ++ r2))) with false
+      by (symmetry; apply dup_in_NoDup; exact Hid).
+    rewrite app_assoc in Himp. apply Forall_app in Himp. destruct Himp as [Hroot Hadds].
+    unfold root_of.
+    rewrite (member_implicit_ok p _ 0 Hroot). rewrite (member_implicit_ok p _ _ Hadds).
+    replace (exttag_error (m_tagging m) (r1 ++ r2) (adds_of ext)) with false; [reflexivity|].
+    unfold exttag_error. destruct (m_tagging m); try reflexivity.
+    destruct (existsb has_tag (adds_of ext)) eqn:A; [|rewrite andb_false_r; reflexivity].
+    rewrite (Hext eq_refl eq_refl). reflexivity.
+  - left. reflexivity.
+  - simpl in Hok. left.
+    change (check_node m fuel p (TRef r)) with
+      (NOk (when (match terminal m (term_fuel m) (TRef r) with None => true | Some _ => false end) RUndefRef)).
+    destruct (terminal m (term_fuel m) (TRef r)) eqn:T; [reflexivity|].
+    exfalso. exact (Hch r Hok T).
+Qed.
+
+Definition enums_plain : Prop := forall t, In t (all_types m) -> enum_plain t.
+
+Lemma check_defs_quiet : forall fuel ds,
+  (forall d, In d ds -> quiet (check_def m fuel d)) -> quiet (check_defs m fuel ds).
+Proof.
+  induction ds as [|d ds IH]; intro H; simpl; [left; reflexivity|].
+  apply nres_app_quiet; [apply H; left; reflexivity | apply IH; intros d' Hd'; apply H; right; exact Hd'].
+Qed.
+
+Theorem distinct_complete_partial :
+  tagging_wf m -> distinct_spec m -> enums_plain -> chains_short ->
+  check m = Accept \/ check m = Crashes.
+Proof.
+  intros [Hnd [Himp Hwf]] Hspec Hen Hch.
+  assert (Q : quiet (fix_module m)).
+  { unfold fix_module. apply nres_app_quiet.
+    - left. replace (dup_in (map d_name (m_defs m))) with false by (symmetry; apply dup_in_NoDup; exact Hnd).
+      reflexivity.
+    - apply check_defs_quiet. intros d Hd. unfold check_def. apply nres_app_quiet.
+      + left. rewrite Forall_forall in Himp. rewrite (implicit_ok_no_error _ _ _ (Himp d Hd)). reflexivity.
+      + apply check_ty_quiet. intros t' Ht' p'.
+        assert (Hin : In t' (all_types m)) by (unfold all_types; apply in_flat_map; exists d; auto).
+        apply check_node_complete; auto. }
+  unfold check. destruct Q as [Q|Q]; rewrite Q.
+  - destruct (compile_ends m); auto.
+  - auto.
+Qed.
+End Complete.
